@@ -399,9 +399,9 @@ def R4_mint_admission(run):
         # classify return values reached: Ok(false) only?
         vals = set()
         for b in seen:
-            for st in fn.blocks[b]["s"]:
+            for si, st in enumerate(fn.blocks[b]["s"]):
                 if st["k"] == "=" and st["p"]["l"] == 0 and "p" not in st["p"]:
-                    tt = pv._rvalue(st["rv"], b, 0, 0)
+                    tt = pv._rvalue(st["rv"], b, si, 0)
                     if tt[0] == "agg" and tt[2] == "Ok":
                         v = const_val(dict(tt[3]).get("0"))
                         vals.add({0: "false", 1: "true"}.get(v, "?"))
@@ -483,9 +483,9 @@ def _ret_ok_values_flow(fn, pv, start, fl, stop):
             vals.add("continues")
             continue
         assigned = False
-        for st in fn.blocks[b]["s"]:
+        for si, st in enumerate(fn.blocks[b]["s"]):
             if st["k"] == "=" and st["p"]["l"] == 0 and "p" not in st["p"]:
-                tt = pv._rvalue(st["rv"], b, 0, 0)
+                tt = pv._rvalue(st["rv"], b, si, 0)
                 if tt[0] == "agg" and tt[2] == "Ok":
                     v = const_val(dict(tt[3]).get("0"))
                     vals.add({0: "false", 1: "true"}.get(v, "?"))
